@@ -50,6 +50,21 @@ def fam_const(f: int) -> int:
     return FAM.get(f, 1000 + f)
 
 
+_V6: dict[str, bool] = {}
+
+
+def ipv6_loopback_ok() -> bool:
+    """can an AF_INET6 socket be created and bound to ::1 on this machine (probed once)"""
+    if "ok" not in _V6:
+        try:
+            with real_socket.socket(real_socket.AF_INET6, real_socket.SOCK_STREAM) as s:
+                s.bind(("::1", 0))
+            _V6["ok"] = True
+        except OSError:
+            _V6["ok"] = False
+    return _V6["ok"]
+
+
 def open_fds() -> set[int]:
     res = set()
     for name in os.listdir("/proc/self/fd"):
